@@ -241,4 +241,93 @@ def forwardSender (loc host sender : Bytes) (owner ownerDefault : Bool) : Bytes 
   else if owner then loc ++ [45, 111, 119, 110, 101, 114, 64] ++ host
   else sender
 
+/-! ## One whole delivery (qmail-local(8), dot-qmail(5)): the documented outcome of an invocation
+
+`Setting` is everything the manual pages refer to: the arguments and the state of the world around the agent.
+`outcome` is the single documented result (exit code, externally visible effects in order, the instructions
+acted upon, their counts).  `Props/C13.lean: C13_run_outcome` proves that the model of `main()` computes exactly
+this; compiled into the driver, the same function is the oracle applied to the implementation's behaviour. -/
+
+structure Setting where
+  doit : Bool                       -- false: `-n`, describe only
+  homeMode : Nat                    -- st_mode of the home directory
+  loc : Bytes
+  dash : Bytes
+  ext : Bytes
+  host : Bytes
+  sender : Bytes
+  dflt : Bytes                      -- the default delivery instructions (`aliasempty`)
+  msg : Bytes
+  look : Bytes → Entry              -- the home directory, as `control` sees it
+  present : Bytes → Option Bool     -- does a name exist (any type)?  `none`: cannot be determined right now
+  run : Bytes → Ran                 -- what running a command gives
+  fileOK : SInstr → Nat             -- 0: the mbox / maildir delivery succeeds; otherwise the exit code of its failure
+  queueReply : Bytes                -- qmail-queue's answer to the forwarded copy: "" accepted, "D…" permanent, else temporary
+
+/-- "-owner" -/
+def ownerSuffix : Bytes := [45, 111, 119, 110, 101, 114]
+
+/-- the names examined to choose the envelope sender of forwarded copies, in order (dot-qmail(5), "-owner" and
+"-owner-default"); none for bounces (empty sender or `#@[]`) -/
+def ownerNames (S : Setting) : List Bytes :=
+  if S.sender = [] ∨ S.sender = [35, 64, 91, 93] then []
+  else
+    let base := dotQmail ++ S.dash ++ S.ext.map safeChar
+    match S.present (base ++ ownerSuffix) with
+    | some true => [base ++ ownerSuffix, base ++ (ownerSuffix ++ [45] ++ dflt)]
+    | _ => [base ++ ownerSuffix]
+
+/-- the envelope sender of forwarded copies; `none`: an owner file could not be examined (temporary failure) -/
+def senderFor (S : Setting) : Option Bytes :=
+  if S.sender = [] ∨ S.sender = [35, 64, 91, 93] then some S.sender
+  else
+    let base := dotQmail ++ S.dash ++ S.ext.map safeChar
+    match S.present (base ++ ownerSuffix) with
+    | none => none
+    | some false => some S.sender
+    | some true =>
+      match S.present (base ++ (ownerSuffix ++ [45] ++ dflt)) with
+      | none => none
+      | some od => some (forwardSender S.loc S.host S.sender true od)
+
+/-- which instructions are followed, and whether only forwarding is allowed (x bit); `error c`: the delivery is
+refused with exit code `c` before any instruction: no such address (100), control file unreadable for a temporary
+reason or writable by others (111) -/
+def plan (S : Setting) : Except Nat (Bytes × Bool) :=
+  match control S.look (candidates S.dash S.ext) with
+  | none => if S.dash ≠ [] then .error 100 else .ok (S.dflt, false)
+  | some (_, .file m content) =>
+    if m &&& 2 ≠ 0 then .error 111
+    else if content = [] then .ok (S.dflt, false)
+    else .ok (content, m &&& 0o100 != 0)
+  | some (_, _) => .error 111
+
+/-- qmail-local's exit code for qmail-queue's answer to the forwarded copy -/
+def queueVerdict (reply : Bytes) : Nat :=
+  match reply with
+  | [] => 0
+  | c :: _ => if c = 68 then 100 else 111
+
+/-- refused before any instruction: nothing delivered, nothing forwarded, nothing described -/
+def refuse (code : Nat) : Expect := { code := code, effects := [], shown := [], counts := (0, 0, 0) }
+
+def outcome (S : Setting) : Expect :=
+  if S.homeMode &&& 2 ≠ 0 ∨ (S.homeMode &&& 0o1000 ≠ 0 ∧ S.doit = true) then refuse 111
+  else if S.doit = true ∧ loops S.loc S.host S.msg = true then refuse 100
+  else
+    match plan S with
+    | .error c => refuse c
+    | .ok (text, fo) =>
+      match senderFor S with
+      | none => refuse 111
+      | some snd => follow S.doit fo text snd S.run S.fileOK (queueVerdict S.queueReply)
+
+/-- "did <files>+<forwards>+<programs>\n" -/
+def didl (c : Nat × Nat × Nat) : Bytes :=
+  [100, 105, 100, 32] ++ fmtNat c.1 ++ [43] ++ fmtNat c.2.1 ++ [43] ++ fmtNat c.2.2 ++ [10]
+
+/-- what `-n` prints: the description of every instruction acted upon and, on success, the counts -/
+def printedN (e : Expect) : Bytes :=
+  (e.shown.map describe).flatten ++ (if e.code = 0 then didl e.counts else [])
+
 end Nq.LocalSpec
